@@ -708,6 +708,68 @@ def splice_generator_loop(h, binding, loop, caller_names, tag, nonnull=None, max
     return out
 
 
+def _arms(st):
+    if isinstance(st, ast.Match):
+        return [c.body for c in st.cases]
+    if isinstance(st, ast.If):
+        arms = [st.body]
+        cur = st
+        while len(cur.orelse) == 1 and isinstance(cur.orelse[0], ast.If):
+            cur = cur.orelse[0]
+            arms.append(cur.body)
+        if cur.orelse:
+            arms.append(cur.orelse)
+        return arms
+    return None
+
+
+def _duplicate_tail_into_arms(stmts, repo, f, new_funcs, resolve_helper):
+    """match/if whose arms bind `v = gen(...)` (gen a new generator helper) followed by a shared `for x in v:` tail:
+    the tail is moved into every arm (arms that end in raise / return do not reach it), and `for x in v` reads the call
+    directly, so that the generator can be spliced where its items are consumed.  Semantics-preserving code motion."""
+    for i, st in enumerate(stmts):
+        arms = _arms(st)
+        if arms is None or i + 1 >= len(stmts):
+            continue
+        tail = stmts[i + 1:]
+        if not (isinstance(tail[0], ast.For) and isinstance(tail[0].iter, ast.Name)):
+            continue
+        v = tail[0].iter.id
+        hit = False
+        for body in arms:
+            for x in body:
+                if isinstance(x, ast.Assign) and len(x.targets) == 1 and isinstance(x.targets[0], ast.Name) and x.targets[0].id == v and isinstance(x.value, ast.Call):
+                    h, _ = resolve_helper(repo, f, x.value)
+                    if h is not None and h.qname in new_funcs and _is_generator(h.node):
+                        hit = True
+        if not hit:
+            continue
+        other_uses = sum(1 for t in tail for x in ast.walk(t) if isinstance(x, ast.Name) and x.id == v) - 1
+        if other_uses:
+            continue
+        if isinstance(st, ast.If) and not _if_has_else(st):
+            continue        # the fall-through path would lose the tail
+        for body in arms:
+            if body and isinstance(body[-1], (ast.Raise, ast.Return)):
+                continue
+            new_tail = [copy.deepcopy(t) for t in tail]
+            binds = [x for x in body if isinstance(x, ast.Assign) and len(x.targets) == 1 and isinstance(x.targets[0], ast.Name) and x.targets[0].id == v]
+            uses_in_arm = sum(1 for b_ in body for x in ast.walk(b_) if isinstance(x, ast.Name) and x.id == v and isinstance(x.ctx, ast.Load))
+            if len(binds) == 1 and uses_in_arm == 0 and body[-1] is binds[0]:
+                new_tail[0].iter = binds[0].value
+                body.pop()
+            body.extend(new_tail)
+        return stmts[:i + 1]
+    return stmts
+
+
+def _if_has_else(st):
+    cur = st
+    while len(cur.orelse) == 1 and isinstance(cur.orelse[0], ast.If):
+        cur = cur.orelse[0]
+    return bool(cur.orelse)
+
+
 def inline_new_helpers(repo, new_funcs, resolve_helper, bind_args, max_rounds=2):
     """transform repo.funcs' ASTs in place; returns {caller qname: [helper qnames spliced]}"""
     report = {}
@@ -719,6 +781,7 @@ def inline_new_helpers(repo, new_funcs, resolve_helper, bind_args, max_rounds=2)
 
             def rewrite(stmts):
                 nonlocal changed
+                stmts = _duplicate_tail_into_arms(stmts, repo, f, new_funcs, resolve_helper)
                 out = []
                 for st in stmts:
                     # recurse into compound statements first
@@ -729,6 +792,9 @@ def inline_new_helpers(repo, new_funcs, resolve_helper, bind_args, max_rounds=2)
                     if isinstance(st, ast.Try):
                         for hd in st.handlers:
                             hd.body = rewrite(hd.body)
+                    if isinstance(st, ast.Match):
+                        for cs_ in st.cases:
+                            cs_.body = rewrite(cs_.body)
                     if isinstance(st, ast.For) and isinstance(st.iter, ast.Call):
                         h, skip = resolve_helper(repo, f, st.iter)
                         if h is not None and h.qname in new_funcs and h.node is not f.node and _is_generator(h.node) and not h.node.decorator_list:
